@@ -17,16 +17,16 @@ RULE = ("Hypothesis-generated histories over ONE set of input objects (soil, cro
         "{re-run the same model object, build a new model from the same objects and run it, build a new model from the same "
         "objects and run it step-wise} is applied; every run's tables and summary must be bitwise equal to the first run's and no "
         "call may raise. Configurations cover every strategy, deep-rooted crops on shallow profiles (profile deepening), thermal "
-        "crops, all CO2 options, groundwater, explicit/implicit harvest dates. One evaluation per re-run. Non-trivial history: "
+        "crops, option switches incl. SwitchGDD, all CO2 options, groundwater, explicit/implicit harvest dates. One evaluation per re-run. Non-trivial history: "
         ">=2 runs after the first; distinct = (configuration, operation sequence).")
 ASSUMPTIONS = [
-    "SwitchGDD=1 (documented to convert the user's crop object to thermal time) is not generated",
+    "SwitchGDD=1 converts the user's crop object to thermal time; it is generated like every other option switch (the conversion must be idempotent: finding F11s)",
     "a configuration whose FIRST run ends in a documented rejection is not a history of runs and is only counted",
 ]
 BUDGET = {"quick": 280, "thorough": 3000}
 CRASH_IS_VIOLATION = False
 DEEP = ["Maize", "MaizeGDD", "Cotton", "Sunflower", "Soybean", "AlfalfaGDD", "Sorghum", "SugarCane"]
-PROFILE = gen.profile(crops=DEEP + list(gen.CROPS), seasons=(1, 2), max_days=600, p_dz=0.4, p_co2=0.5, p_gw=0.3, p_harvest=0.3,
+PROFILE = gen.profile(crops=DEEP + list(gen.CROPS), switches=True, switch_gdd=True, seasons=(1, 2), max_days=600, p_dz=0.4, p_co2=0.5, p_gw=0.3, p_harvest=0.3,
                       irr=((0, 1), (1, 2), (2, 2), (3, 4), (4, 2), (5, 1)), p_fm=0.4, p_ffm=0.2)
 OPS = ["rerun_same_model", "new_model_same_objects", "new_model_same_objects_stepwise"]
 
